@@ -58,7 +58,7 @@ fn gen_key(rng: &mut Rng) -> i32 {
     }
 }
 
-fn gen_ops(rng: &mut Rng, selecting: bool) -> Vec<Op> {
+fn gen_ops(rng: &mut Rng, selecting: bool, selkeys: &[i32]) -> Vec<Op> {
     let w: Vec<u32> = if selecting {
         //   syl nav del open page choose close misc cfg user key
         vec![2, 5, 2, 1, 12, 12, 3, 2, 3, 1, 3]
@@ -86,7 +86,8 @@ fn gen_ops(rng: &mut Rng, selecting: bool) -> Vec<Op> {
         5 => vec![if rng.chance(1, 2) {
             Op::CandChoose(*rng.pick(&[0, 0, 1, 1, 2, 3, 4, 7, 9, 10, 12, 100, -1, -2147483648]))
         } else {
-            Op::Default(*rng.pick(b"1234567890asdfghjkl;q") as i32)
+            // one of the selection keys in force (whatever ints they are), or any key of the fixed list
+            Op::Default(if rng.chance(1, 3) && !selkeys.is_empty() { *rng.pick(selkeys) } else { *rng.pick(&CHOICE_KEYS) })
         }],
         6 => vec![if rng.chance(1, 2) { Op::CandClose } else { Op::Named(*rng.pick(&[N_ESC, N_UP])) }],
         7 => vec![match rng.below(11) {
@@ -113,7 +114,7 @@ fn gen_ops(rng: &mut Rng, selecting: bool) -> Vec<Op> {
             12 => Op::SetOpt(0, *rng.pick(&[0, 1, 2, 3])),
             13 => Op::SetOpt(1, rng.below(2) as i32),
             14 => Op::SetKb(*rng.pick(&[0, 0, 1, 2, 3, 4, 5, 6, 7, 8, 9, 10, 11, 13, 14, 15, 16, 17, -1])),
-            _ => Op::SetSelKeys(rng.below(3) as u8),
+            _ => Op::SetSelKeys(rng.weighted(&[3, 3, 3, 2]) as u8),
         }],
         9 => vec![if rng.chance(2, 3) { Op::UserAdd(rng.below(5) as u8) } else { Op::UserRemove(rng.below(5) as u8) }],
         _ => vec![if rng.chance(1, 12) { Op::Reset } else { Op::Default(gen_key(rng)) }],
@@ -186,6 +187,10 @@ fn trace(out: &mut Out, ctl: &mut Ctl, seed: u64, n_calls: usize, st: &mut Stats
     if rng.chance(1, 5) {
         pending.push(Op::SetOpt(0, *rng.pick(&[0, 2])));
     }
+    // selection keys other than the digits from the start in a quarter of the histories (half of those: ints that are no bytes)
+    if rng.chance(1, 4) {
+        pending.push(Op::SetSelKeys(*rng.pick(&[1, 2, 3, 3])));
+    }
     pending.reverse();
     let mut hist: Vec<String> = vec![];
     let mut pre = unsafe { observe_c(ctx) };
@@ -200,7 +205,7 @@ fn trace(out: &mut Out, ctl: &mut Ctl, seed: u64, n_calls: usize, st: &mut Stats
     while ok && calls < n_calls {
         let ops = match pending.pop() {
             Some(o) => vec![o],
-            None => gen_ops(&mut rng, pre.selecting()),
+            None => gen_ops(&mut rng, pre.selecting(), &pre.selkeys),
         };
         for op in ops {
             calls += 1;
@@ -226,6 +231,9 @@ fn trace(out: &mut Out, ctl: &mut Ctl, seed: u64, n_calls: usize, st: &mut Stats
                 st.add("glue_records", 1);
                 if pre.selecting() && matches!(op, Op::Default(k) if pre.selkeys.contains(&k)) {
                     st.add("glue_records_selection_key_under_open_list", 1);
+                }
+                if pre.selecting() && matches!(op, Op::Default(k) if pre.selkeys.contains(&k) && !(0..=255).contains(&k)) {
+                    st.add("glue_records_selection_key_outside_a_byte_under_open_list", 1);
                 }
                 if matches!(op, Op::Default(k) | Op::Numlock(k) | Op::CtrlNum(k) if !(0..=255).contains(&k)) {
                     st.add("glue_records_key_outside_a_byte", 1);
